@@ -8,35 +8,40 @@ EXTENDS BinArchive, Json, IOUtils
 
 Rec == ndJsonDeserialize(IOEnv.TRACE)
 
-VARIABLES i, st, bad
-vars == <<i, st, bad>>
+VARIABLES i, st, bad, noncanon
+vars == <<i, st, bad, noncanon>>
 
 Empty == [endian |-> "le", data |-> <<>>, text |-> <<>>, ptrs |-> <<>>, labels |-> <<>>, cstr |-> <<>>]
-Init == i = 1 /\ st = Empty /\ bad = <<>>
+Init == i = 1 /\ st = Empty /\ bad = <<>> /\ noncanon = <<>>
 
 \* serialize() after an arbitrary history (C02 "whatever the order of the calls that built them", C01 well-formedness):
 \* when the logged state is inside the domain of the format properties, the image must be well-formed for it,
 \* re-parse (reference parser) to the same content and - without pending c-strings, where the byte image is
 \* determined - be exactly the canonical image of the state.  The call never changes the archive.
 BF == INSTANCE BinFormat
-SerializeOK(s, f) ==
+\* structure (C01): well-formed for the state and re-parses to it;  canonical (C02): exactly the canonical image
+SerializeStructOK(s, f) ==
   IF ~BF!ValidContent(s) THEN TRUE
   ELSE /\ BF!WellFormedFor(f, s)
        /\ LET r == BF!RefParse(f, s.endian) IN r.ok /\ BF!SameContent(r.c, BF!Reparsed(s))
-       /\ (Len(s.cstr) = 0 /\ (s.endian = "le" \/ BF!BEOrderDetermined(s))) => f = BF!Canon(s)
+SerializeCanonOK(s, f) ==
+  (BF!ValidContent(s) /\ Len(s.cstr) = 0 /\ (s.endian = "le" \/ BF!BEOrderDetermined(s))) => f = BF!Canon(s)
 
 Accept(ev) ==
   \/ ev.op = "reset"
-  \/ ev.op = "serialize" /\ ev.post = st /\ (BF!ValidContent(st) => ev.res.ok) /\ (ev.res.ok => SerializeOK(st, ev.res.v))
+  \/ ev.op = "serialize" /\ ev.post = st /\ (BF!ValidContent(st) => ev.res.ok) /\ (ev.res.ok => SerializeStructOK(st, ev.res.v))
   \/ ev.op # "serialize" /\ Allowed(st, ev, [res |-> ev.res, pos |-> ev.pos, st |-> ev.post])
+\* serialize events whose image is structurally fine but not the canonical image
+NonCanonical(ev) == ev.op = "serialize" /\ ev.res.ok /\ Accept(ev) /\ ~SerializeCanonOK(st, ev.res.v)
 
 Next ==
   /\ i <= Len(Rec)
   /\ LET ev == Rec[i] IN
        /\ bad' = IF Accept(ev) THEN bad ELSE Append(bad, i)
+       /\ noncanon' = IF NonCanonical(ev) THEN Append(noncanon, i) ELSE noncanon
        /\ st' = ev.post
        /\ i' = i + 1
 Spec == Init /\ [][Next]_vars
 
-Report == (i = Len(Rec) + 1) => PrintT("R " \o ToJson([n |-> Len(Rec), bad |-> bad]))
+Report == (i = Len(Rec) + 1) => PrintT("R " \o ToJson([n |-> Len(Rec), bad |-> bad, noncanon |-> noncanon]))
 =============================================================================
